@@ -89,7 +89,10 @@ def driverStep (st : Unit) (line : String) : Unit × String :=
       | _ => "bad-op"
   | "bhlow" :: rest => withAlloc rest fun cap sz d script =>
       match d with
-      | [e, x, y, z] => showOutcome script.length (betheHeitlerLow cap sz e emass ⟨x, y, z⟩ script)
+      | [e, x, y, z] =>
+        -- the modelled branch of BetheHeitlerInteractor is `inc_energy < 2 MeV`
+        if e < 2.0 then showOutcome script.length (betheHeitlerLow cap sz e emass ⟨x, y, z⟩ script)
+        else "bad-op"
       | _ => "bad-op"
   | "bremtail" :: rest =>
       let (l, r) := splitBar rest
@@ -108,11 +111,6 @@ def driverStep (st : Unit) (line : String) : Unit × String :=
   | "calcexit" :: rest =>
       (match pfs rest with
        | some [p, x, y, z, q, a, b, c] => hv (calcExitingDirection p ⟨x, y, z⟩ q ⟨a, b, c⟩)
-       | _ => "bad-op")
-  | "coulomb" :: rest =>
-      (match pfs rest with
-       | some [e, mt, x, y, z, c, u] =>
-         showOutcome 1 (.done (coulombFinal e emass mt ⟨x, y, z⟩ c u) 0 [])
        | _ => "bad-op")
   | _ => "bad-op")
 
